@@ -210,4 +210,17 @@ theorem C08_equivalent_trans (a b c : Operand) (h1 : equivalent cx env a b = tru
   have := C08_factor_chain cx env a b c 0 0 hf1 hf2
   rw [this]; congr 1; grind
 
+/-- C08-1': the verdict does not depend on which units is asked about which -/
+theorem C08_compatible_comm (a b : Operand) : compatible cx env a b = compatible cx env b a := by
+  rw [Bool.eq_iff_iff]
+  exact ⟨C08_compatible_symm cx env a b, C08_compatible_symm cx env b a⟩
+
+/-- C08-3h: `scalingFactor` is non-zero exactly for compatible units -/
+theorem C08_factor_defined_iff (a b : Operand) : (factorLog cx env a b).isSome = compatible cx env a b := by
+  cases hc : compatible cx env a b with
+  | false => simp [C08_factor_zero cx env a b hc]
+  | true =>
+    obtain ⟨x, y, _, _, hf⟩ := C08_factor_of_compatible cx env a b hc
+    simp [hf]
+
 end Cellml.Props.C08
